@@ -9,7 +9,7 @@ import WpModel.Model.ResourcesDoc
 namespace Wp.Witness.C20
 open Wp Wp.Res
 
-def pngRgb : Content := ⟨1, false, some ⟨"PNG", "RGB", false, false⟩, false, true, false⟩
+def pngRgb : Content := ⟨1, false, some ⟨"PNG", "RGB", false, false, true⟩, false, true, false⟩
 def xhtml : Content := ⟨21, true, none, false, true, false⟩
 def garbage : Content := ⟨25, false, none, false, true, false⟩
 
@@ -22,7 +22,7 @@ only the path (`LazyLocalImage`).  When the PDF is written the path is opened be
 back: with no such file, `FileNotFoundError`; with another file there, *its* bytes are embedded.
 (So `bytes_from_fetcher` without the scheme hypothesis is false.) -/
 theorem lazy_local_reread :
-    (getImage [] memoryFetcher ⟨false, false⟩ fileReq).2.2 = .ok (some (.raster "PNG" (.lazyLocal "/data/a.png") 1)) ∧
+    (getImage [] memoryFetcher ⟨false, none, none⟩ fileReq).2.2 = .ok (some (.raster "PNG" (.lazyLocal "/data/a.png") 1)) ∧
     opensAtWrite (.raster "PNG" (.lazyLocal "/data/a.png") 1) = ["/data/a.png"] ∧
     dataAtWrite (fun _ => none) (.raster "PNG" (.lazyLocal "/data/a.png") 1) =
       .error ⟨"FileNotFoundError", "/data/a.png"⟩ ∧
@@ -31,7 +31,7 @@ theorem lazy_local_reread :
 
 /-- The same through `redirected_url`: an `http:` image whose fetcher reports a `file:` location. -/
 theorem lazy_local_reread_redirect :
-    (getImage [] (fun _ => .resp ⟨true, none, none, some "file:///cache/x.png", pngRgb⟩) ⟨false, false⟩
+    (getImage [] (fun _ => .resp ⟨true, none, none, some "file:///cache/x.png", pngRgb⟩) ⟨false, none, none⟩
       ⟨"http://a.test/x.png", .fromImage, none⟩).2.2 = .ok (some (.raster "PNG" (.lazyLocal "/cache/x.png") 1)) := rfl
 
 /-- finding `read-error-not-funnelled`.  A `file_obj` whose `read()` raises (connection reset,
@@ -40,7 +40,7 @@ the exception leaves `get_image_from_uri` (and the render).  So `image_total` wi
 `absorbed` hypothesis is false. -/
 theorem read_error_escapes :
     (getImage [] (fun _ => .resp ⟨false, some ⟨some ⟨"EOFError", "Compressed file ended"⟩, false⟩, some "image/png",
-        none, pngRgb⟩) ⟨false, false⟩ ⟨"http://a.test/x.png", .fromImage, none⟩).2.2 =
+        none, pngRgb⟩) ⟨false, none, none⟩ ⟨"http://a.test/x.png", .fromImage, none⟩).2.2 =
       .error ⟨"EOFError", "Compressed file ended"⟩ := rfl
 
 /-- The same hole in the stylesheet loader: the `<link>` below makes `find_stylesheets` raise, while
@@ -63,17 +63,24 @@ theorem attachment_read_error_escapes :
 well-formed XML, the last-chance branch builds an `SVGImage` from it — under any MIME type — so the
 `<img>` becomes a (blank, 300×150) replaced box instead of its alt text. -/
 theorem xml_accepted_as_image :
-    (getImage [] (fun _ => .resp ⟨true, none, some "text/html", none, xhtml⟩) ⟨false, false⟩
+    (getImage [] (fun _ => .resp ⟨true, none, some "text/html", none, xhtml⟩) ⟨false, none, none⟩
       ⟨"http://a.test/x.png", .fromImage, none⟩).2.2 = .ok (some (.svg 21)) ∧
     handleImg (some "http://a.test/x.png") (some "ALT") (some (.svg 21)) = [.replaced] ∧
     handleImg none (some "ALT") none = [.altText "ALT"] := ⟨rfl, by decide, by decide⟩
 
-/-- finding `svg-image-without-href`.  Drawing `<svg><image width=… height=…/></svg>` (an `<image>`
-without `href`) calls `get_image_from_uri(url=None)`: the caller's fetcher is handed `None` — not an
-absolute URL, not named by the document — and `'None from-image'` becomes a cache key. -/
-theorem svg_image_without_href_calls_fetcher :
-    (Doc.drawSvg (fun _ => .raises ⟨"LookupError", "unknown"⟩) ⟨false, false⟩ [] [.image none]) =
-      ([("None from-image", none)], [.call "None"]) := rfl
+/-- Repaired finding `svg-image-without-href` (799e002), regression on the same input.  Drawing
+`<svg><image width=… height=…/></svg>` (an `<image>` without `href`) used to call `get_image_from_uri(url=None)`:
+the fetcher was handed `None` and `'None from-image'` became a cache key.  Now nothing is fetched and nothing cached
+(the general statement is `Wp.C20.Trace.drawObject_calls_named`: every URL asked for is the `href` of an element). -/
+theorem svg_image_without_href_fetches_nothing :
+    (Svg.drawObject (fun _ => .raises ⟨"LookupError", "unknown"⟩) ⟨false, none, none⟩ [(7, [.image none])] 3 [] [] "k" 7) =
+      ([], [], false) := rfl
+
+theorem svg_image_without_href_skipped (fetcher : Fetcher) (opts : Opts) (deeper : Cache → String → Nat → Svg.DrawOut)
+    (cache : Cache) (rest : List Doc.SvgItem) :
+    Svg.drawItems fetcher opts deeper cache (.image none :: rest) = Svg.drawItems fetcher opts deeper cache rest ∧
+    Svg.drawItems fetcher opts deeper cache (.image (some "") :: rest) = Svg.drawItems fetcher opts deeper cache rest := by
+  constructor <;> simp [Svg.drawItems]
 
 /-- finding `svg-use-bypasses-fetch`.  An external `<use href="other.svg#a">` calls the fetcher directly
 (`svg.url_fetcher(url)`), not through `fetch`: the file object it returns is never closed (compare
@@ -81,7 +88,8 @@ theorem svg_image_without_href_calls_fetcher :
 reference can never be shown. -/
 theorem svg_use_never_closes :
     let fetcher : Fetcher := fun _ => .resp ⟨false, some ⟨none, false⟩, some "image/svg+xml", none, xhtml⟩
-    (Doc.drawSvg fetcher ⟨false, false⟩ [] [.useExternal "http://a.test/o.svg#a"]).2 = [.call "http://a.test/o.svg#a"] ∧
+    (Svg.drawObject fetcher ⟨false, none, none⟩ [(7, [.useExternal "http://a.test/o.svg#a"])] 3 [] [] "k" 7).2.1 =
+      [.call "http://a.test/o.svg#a"] ∧
     (fetch (fetcher "http://a.test/o.svg#a") "http://a.test/o.svg#a" readAll).1 =
       [.call "http://a.test/o.svg#a", .body, .close] := ⟨rfl, rfl⟩
 
@@ -102,17 +110,18 @@ theorem import_cycle_never_terminates (fuel : Nat) :
   | zero => rfl
   | succ n ih => simp [importFetches, List.foldlM, ih, Except.map, bind, Except.bind]
 
-/-- finding `svg-self-reference-hang`.  Number of `SVGImage.draw` calls for an SVG with `k` `<image>`
-elements that point at the SVG itself, when the recursion is cut at depth `n` (each `RecursionError` is
-swallowed by the enclosing `draw`, which goes on with its next element): with two self-references
-the work doubles at every level — with Python's limit of 1000 frames the drawing never finishes. -/
-def selfDraws (k : Nat) : Nat → Nat
-  | 0 => 1
-  | n + 1 => 1 + k * selfDraws k n
+/-- Repaired finding `svg-self-reference-hang` (9598d29), regression on the same input (the model of the drawing
+itself, with the general termination theorem, is `Svg.drawObject` / `Wp.C20.Svg.svg_drawing_terminates`).  Number of
+`SVGImage.draw` calls for an SVG with `k` `<image>` elements that point at the SVG itself (same URL and orientation:
+the cache returns the same `SVGImage` object), with the `_drawing` flag of that object and the recursion cut at depth
+`n`.  Before the repair each level drew its `k` elements again (`1 + k * draws n`, at least `2 ^ n` for `k = 2`, with
+Python's limit of 1000 frames the drawing never finished); now every nested call returns at once. -/
+def selfDraws (k : Nat) : Bool → Nat → Nat
+  | true, _ => 1                 -- `if self._drawing: LOGGER.error(…); return`
+  | false, 0 => 1
+  | false, n + 1 => 1 + k * selfDraws k true n
 
-theorem svg_self_reference_exponential (n : Nat) : 2 ^ n ≤ selfDraws 2 n := by
-  induction n with
-  | zero => decide
-  | succ n ih => simp only [selfDraws, Nat.pow_succ]; omega
+theorem svg_self_reference_linear (k n : Nat) : selfDraws k false (n + 1) = 1 + k := by
+  simp [selfDraws]
 
 end Wp.Witness.C20
